@@ -20,6 +20,7 @@ EXTENDS RtmpTxnConc, Json
 
 TraceLog == ndJsonDeserialize("trace.ndjson")
 TraceReqs == [i \in 1..40 |-> i + 1]       \* every run sends transaction ids 2..41 in order
+TraceKey == [t \in 2..41 |-> t]
 TraceParts == [i \in 1..40 |-> 1]
 TraceRegAfter == [i \in 1..40 |-> 0]
 
